@@ -354,7 +354,7 @@ func (w *world) step(op Op) (err error) {
 		}
 	}()
 	ncol := len(w.types)
-	if len(w.handles) == 0 && op.Kind != "make" && op.Kind != "slices" && op.Kind != "values" {
+	if len(w.handles) == 0 && op.Kind != "make" && op.Kind != "slices" && op.Kind != "values" && op.Kind != "bigvalues" {
 		op.Kind = "make"
 	}
 	switch op.Kind {
@@ -613,6 +613,9 @@ func (w *world) step(op Op) (err error) {
 		if h.off > 0 {
 			w.viewOps++
 		}
+		if h.n > 1024 {
+			bigZeroes++
+		}
 		h.f.Zero()
 		for i := 0; i < h.n; i++ {
 			h.st.rows[h.off+i] = w.zeroRow()
@@ -746,6 +749,9 @@ func (w *world) step(op Op) (err error) {
 	return nil
 }
 
+// bigZeroes counts Zero operations on views of more than 1024 rows (cases run one at a time).
+var bigZeroes int
+
 // runCase executes a case; it returns a description of the first divergence.
 func runCase(c Case) (err error, viewOps int, step int) {
 	w := &world{c: c}
@@ -794,9 +800,16 @@ func TestVerifC11FrameModel(t *testing.T) {
 	defer rec.Commit(testName)
 	rapid.Check(t, func(rt *rapid.T) {
 		c := genCase(rt)
+		bz := bigZeroes
 		err, vo, step := runCase(c)
 		b, _ := json.Marshal(c)
 		classes := []string{}
+		if bigZeroes > bz {
+			classes = append(classes, "zero-of->1024-rows")
+		}
+		if len(c.Ops) > 0 && c.Ops[0].Kind == "bigvalues" {
+			classes = append(classes, "frame-of->1000-rows")
+		}
 		if vo > 0 {
 			classes = append(classes, "view-offset>0")
 		}
